@@ -8,7 +8,10 @@ WALKS = ['1qaz', 'qwer', '2wsx', 'zxcv', '1q2w3e', 'asdf', 'qazwsx', '!QAZ', '4r
 CONTEXT = [';p', ':p', '*0*', '#1', 'No.1', 'no.1', 'No.', 'i<3', 'I<3', '<3', 'Mr.', 'mr.', 'MS.', 'St.', 'Dr.', 'dr.']
 YEARS = ['1999', '2000', '2012', '1987', '2024', '1900', '2099', '19', '20', '199', '20123', '12019']
 TLDS = ['.com', '.org', '.net', '.de', '.ru', '.uk', '.nl.se', '.mil']
-SYMBOLS = ['!', '@', '#', '$', '%', '^', '&', '*', ' ', '_', '-', '.', '/', ':', '€', '😀', '  ', '!!', '#1!', '??']
+SYMBOLS = ['!', '@', '#', '$', '%', '^', '&', '*', ' ', '_', '-', '.', '/', ':', '€', '😀', '  ', '!!', '#1!', '??',
+           # cased but not alphabetic (circled capitals, Roman numerals): lower() changes them although they are no letters
+           'Ⓐ', 'Ⅻ', 'Ⓑ']
+CASED_SYMBOL_CORPUS = ['Ⓐnarchy99', 'ⅫMonkeys', 'x9ⒷSide', 'Ⓐ', 'passⅫ', 'Ⓑ1qaz2wsx']
 DIGITS = ['1', '12', '123', '007', '42', '1234567', '0', '²', '٣', '99']
 NONTAME = ['İ', 'ǅ', 'ǈ', 'ß', 'ﬁ', 'ŉ', 'ǰ', 'ΐ']
 
